@@ -27,7 +27,8 @@ def c15(run):
         r = rnd.random()
         if r < (0.35 if quick else 1.0):
             c2 = copy.deepcopy(c)
-            c2["in"]["via"] = "head"
+            # two concurrent callers only where a second search cannot legitimately come to another verdict (no transient getter failure)
+            c2["in"]["via"] = "head2" if (c["in"]["failAt"] == 0 and rnd.random() < 0.5) else "head"
             extra.append(c2)
         if c["in"]["failAt"] != 0 and rnd.random() < (0.5 if quick else 1.0):
             c2 = copy.deepcopy(c)
@@ -49,6 +50,9 @@ def c15(run):
     run.assumptions += ["non-adjacent verification outcome is given by the row's trust predicate installed in the harness header type",
                         "forged = bad signature: fails hard when adjacent, soft otherwise"]
     judge(run, cases, "TestBifurcation", "BifurcationTrace", ["C15_"], shards=8, pkg="synch")
+    # composition: the candidate is the answer of a peer to the real p2p.Exchange (tracker populated or empty); the
+    # Exchange must hand a soft-failing answer over with its error so that the Syncer bifurcates
+    judge(run, [{"id": 0, "from_tlc": False}], "TestComposite", "CompositeTrace", ["C15_"], shards=1, pkg="p2ph")
 
 
 @register("C16")
@@ -60,6 +64,17 @@ def c16(run):
     vlib.require_tlc_ok(res, "SyncerTail.tla")
     run.add_tlc("SyncerTail.tla: tail arithmetic transcribed with Go semantics (division by zero, uint64 wrap); parameters x store x time pattern x new head", res)
     cases = res.exported
+    # replay-only variant (same prediction): running store with the shortest trusting period that still covers the stored head
+    import copy
+    extra = []
+    for c in cases:
+        i_ = c["in"]
+        if i_["tail"] != 0 and i_["sfh"] == 0 and i_["w"] > 0 and c["allowed"]:
+            c2 = copy.deepcopy(c)
+            c2["in"]["tpSmall"] = True
+            extra.append(c2)
+    cases = cases + extra
+    run.cov["tpSmall_variants"] = len(extra)
     for i, c in enumerate(cases):
         c["id"] = i
     design_bad = collections.Counter((c["predicted"]["kind"]) for c in cases if not c["allowed"])
@@ -235,6 +250,13 @@ def syncer_family(run, prefixes):
         n_ = rnd.randint(6, 12)
         tgt = rnd.randint(3, n_)
         hist = [ev("advance", "", 4), ev("headStart", "", 0), ev("gossip", "valid", tgt), ev("headRelease", "adjacent", 0)] + \
+               [ev("serve", "ok", 64) for _ in range(5)]
+        frees.append({"k": "SYNC", "n": n_, "hist": hist, "nodrift": True, "from_tlc": False})
+    # (d) Head() learns a verified newer head, then its tail renewal fails (SyncFromHeight moved to a height that has to be
+    #     fetched, the peers refuse single headers): Head() reports the error, the learned head is a sync target all the same
+    for _ in range(10 if quick else 150):
+        n_ = rnd.randint(6, 12)
+        hist = [ev("advance", "", 4), ev("tailFail", "", rnd.randint(3, n_)), ev("headStart", "", 0), ev("headRelease", "fresh", n_)] + \
                [ev("serve", "ok", 64) for _ in range(5)]
         frees.append({"k": "SYNC", "n": n_, "hist": hist, "nodrift": True, "from_tlc": False})
     cases = cases + frees
